@@ -651,7 +651,84 @@ fn relearn_case(word: &str, other: &str, fault: u8, i1: usize, i2: usize, st: &m
     Ok(())
 }
 
+fn damaged_case(state: &[u8], w1: &str, w2: &str, st: &mut Stats) -> Result<(), Failure> {
+    let case = || json!({"damaged_between_commits": {"state": state, "first": w1, "second": w2}});
+    let pf = |p: PanicInfo| Failure::new(format!("damaged-in-place:{}", panic_kind(&p)), p.to_string(), case());
+    // one run with the damage, one with the file deleted instead
+    let go = |damage: Option<&[u8]>| -> Result<Vec<Rendered>, Failure> {
+        let sb = Sandbox::new();
+        let opts = Opts::parse("s");
+        let ctx = Ctx::new_at(opts, sb.base()).map_err(pf)?;
+        let mut out = vec![];
+        let l = ctx.type_frontend(w1).map_err(pf)?.unwrap();
+        ctx.commit(1.min(l.choices().saturating_sub(1))).map_err(pf)?;
+        match damage {
+            Some(b) => std::fs::write(sb.selection_file(), b).expect("damage"),
+            None => {
+                let _ = std::fs::remove_file(sb.selection_file());
+            }
+        }
+        let l2 = ctx.type_frontend(w2).map_err(pf)?.unwrap();
+        ctx.commit(1.min(l2.choices().saturating_sub(1))).map_err(pf)?;
+        for w in [w1, w2, "tumi"] {
+            out.push(ctx.type_frontend(w).map_err(pf)?.unwrap());
+            ctx.finish().map_err(pf)?;
+        }
+        match sb.read_selections() {
+            Some(b) if is_object_of_strings(&b) => {}
+            other => return Err(Failure::new("no-loadable-file-after-a-commit-over-a-damaged-store", format!("after the second learning commit the store is {:?}", other.map(|b| String::from_utf8_lossy(&b).to_string())), case())),
+        }
+        let ctx2 = Ctx::new_at(opts, sb.base()).map_err(pf)?;
+        for w in [w1, w2] {
+            out.push(ctx2.type_frontend(w).map_err(pf)?.unwrap());
+            ctx2.finish().map_err(pf)?;
+        }
+        Ok(out)
+    };
+    let got = go(Some(state))?;
+    let want = go(None)?;
+    st.evals(1);
+    if got != want {
+        let i = got.iter().zip(want.iter()).position(|(a, b)| a != b).unwrap_or(0);
+        return Err(Failure::new(
+            "unreadable-file-not-treated-as-absent",
+            format!("store damaged in place between the learning commits of {w1:?} and {w2:?}: rendering #{i} is {} but {} when the file was deleted instead", got[i].short(), want[i].short()),
+            case(),
+        ));
+    }
+    Ok(())
+}
+
+/// The store is damaged IN PLACE under a live context (another program truncated it, a save of another process was cut
+/// off): between two learning commits of one context the file gets one of the unreadable states.  "Unreadable content is
+/// treated as if the file were absent": the context must behave exactly as in the run where the file was deleted at that
+/// moment - in particular the choice learned BEFORE the damage is still in force in the live context, the second commit
+/// leaves a loadable file, and a restarted context agrees with the reference run's restarted context.
+fn damaged_between_two_commits(run: &Run) {
+    let mut states: Vec<Vec<u8>> = vec![b"".to_vec(), b"[]".to_vec(), b"null".to_vec(), b"{\"ami\":1}".to_vec(), b"{\"ami\":".to_vec(), b"{".to_vec(), vec![0xEF, 0xBB], b"{\"a\":\"b\"".to_vec()];
+    // every proper prefix of a store the engine itself writes for the first commit
+    let own = "{\"kotha\":\"\u{0995}\u{09A5}\u{09BE}\"}".as_bytes().to_vec();
+    for i in (1..own.len()).step_by(3) {
+        states.push(own[..i].to_vec());
+    }
+    let items: Vec<(usize, usize)> = (0..states.len()).flat_map(|s| (0..3usize).map(move |w| (s, w))).collect();
+    let words = [("kotha", "sesh"), ("ami", "onno"), ("park", "din")];
+    run.exhaustive(
+        "store-damaged-in-place-between-two-learning-commits",
+        &items,
+        |_| (),
+        |&(si, wi), st, _| {
+            let (w1, w2) = words[wi];
+            damaged_case(&states[si], w1, w2, st)?;
+            st.label("store-damaged-in-place-under-a-live-context");
+            st.nontrivial(hash_of(&(si, wi)), || json!({"state_lossy": String::from_utf8_lossy(&states[si]), "first": w1, "second": w2}));
+            Ok(())
+        },
+    );
+}
+
 pub fn run(run: &Run) {
+    damaged_between_two_commits(run);
     relearn_under_fault(run);
     let n_hist = run.tier.pick(40, 600);
     let stores = collect_stores(n_hist, run.seed);
@@ -753,6 +830,10 @@ pub fn replay(_run: &Run, case: &Value) -> Result<(), Failure> {
         let g = |k: &str| r[k].as_str().unwrap_or_default().to_string();
         let n = |k: &str| r[k].as_u64().unwrap_or(0) as usize;
         return relearn_case(&g("word"), &g("other"), n("fault") as u8, n("first_index"), n("second_index"), &mut Stats::new());
+    }
+    if let Some(d) = case.get("damaged_between_commits") {
+        let state: Vec<u8> = serde_json::from_value(d["state"].clone()).unwrap_or_default();
+        return damaged_case(&state, d["first"].as_str().unwrap_or("kotha"), d["second"].as_str().unwrap_or("sesh"), &mut Stats::new());
     }
     if case.get("transitions").is_some() {
         let steps: Vec<(Trans, bool)> = serde_json::from_value(case["transitions"].clone()).unwrap_or_default();
